@@ -529,6 +529,39 @@ def oas30_to_json_schema(schema):
     return map_schema(schema, fn)
 
 
+OAS30_FIELD_TYPES = {
+    # OpenAPI 3.0.3 "Schema Object": the fixed fields and their types (exclusiveMinimum / exclusiveMaximum
+    # are left out: apischema emits their numeric form, read with its draft-07 meaning -- see C18)
+    "bool": ("deprecated", "nullable", "readOnly", "writeOnly", "uniqueItems"),
+    "str": ("title", "description", "format", "pattern", "$ref", "type"),
+    "count": ("maxLength", "minLength", "maxItems", "minItems", "maxProperties", "minProperties"),
+    "number": ("multipleOf", "maximum", "minimum"),
+    "list": ("required", "enum", "allOf", "anyOf", "oneOf"),
+}
+
+
+def oas30_field_errors(schema) -> List[Tuple[str, str]]:
+    """(keyword, location) of the fixed fields of an OpenAPI 3.0 schema object holding a value of
+    the wrong type (there is no JSON meta-schema for 3.0 in jsonschema: this is its type table)"""
+    ok = {
+        "bool": lambda v: isinstance(v, bool),
+        "str": lambda v: isinstance(v, str),
+        "count": lambda v: isinstance(v, int) and not isinstance(v, bool) and v >= 0,
+        "number": lambda v: isinstance(v, (int, float)) and not isinstance(v, bool),
+        "list": lambda v: isinstance(v, (list, tuple)),
+    }
+    out: List[Tuple[str, str]] = []
+
+    def fn(s, path):
+        for kind, keys in OAS30_FIELD_TYPES.items():
+            for k in keys:
+                if k in s and not ok[kind](s[k]):
+                    out.append((k, "/".join(map(str, path))))
+
+    walk_schema(schema, fn)
+    return out
+
+
 def why_invalid(validator, d, limit: int = 200) -> str:
     """stable description of why a validator rejects: failing keyword @ schema location (the
     leaves of anyOf / oneOf failures, so that the cause inside a combination is visible)"""
